@@ -1577,11 +1577,15 @@ macro_rules! public_decode_function{
                     first_read = read; // Overwrite, don't add!
                     first_written += written;
                 }
-                DecoderResult::Malformed(_, _) => {
+                DecoderResult::Malformed(len, after) => {
                     if first_read == 1usize {
                         // The first byte was malformed. We need to handle
                         // the second one, which isn't in `src`, later.
                         self.life_cycle = DecoderLifeCycle::ConvertingWithPendingBB;
+                        // The second byte has already been reported as read
+                        // to the caller, so it counts as consumed after the
+                        // malformed sequence.
+                        first_result = DecoderResult::Malformed(len, after + 1);
                     }
                     first_read = 0usize; // Wasn't read from `src`!
                 }
